@@ -520,6 +520,12 @@ package yang
 //@   ensures  n != nil && (prefix == "" || prefix == old(ownPrefix(rootOf(n)))) ==> result == rootOf(n)
 //@   ensures  n != nil && prefix != "" && prefix != old(ownPrefix(rootOf(n))) && (forall i int :: 0 <= i && i < len(old(rootOf(n).Import)) ==> old(rootOf(n).Import[i].Prefix.Name) != prefix) ==> result == nil
 //@   ensures[assume:an-import-prefix-denotes-one-module-per-declaring-module] n != nil && prefix != "" && prefix != old(ownPrefix(rootOf(n))) ==> result == importOf(old(rootOf(n)), prefix)
+//@   ensures[assume:loading-keeps-the-typedefs-and-types-that-exist] (forall x *Typedef :: allocated(x) ==> x.Name == old(x.Name) && x.Parent == old(x.Parent) && x.Type == old(x.Type) && x.Units == old(x.Units) && x.Default == old(x.Default) && x.YangType == old(x.YangType) && x.resolving == old(x.resolving))
+//@            && (forall x *Type :: allocated(x) ==> x.Name == old(x.Name) && x.IdentityBase == old(x.IdentityBase) && x.YangType == old(x.YangType))
+//@            && (forall x *Value :: allocated(x) ==> x.Name == old(x.Name))
+//@            && (forall x *YangType :: allocated(x) ==> x.Name == old(x.Name) && x.Kind == old(x.Kind) && x.Base == old(x.Base) && x.IdentityBase == old(x.IdentityBase) && x.Root == old(x.Root) && x.Bit == old(x.Bit) && x.Enum == old(x.Enum)
+//@                && x.Units == old(x.Units) && x.Default == old(x.Default) && x.HasDefault == old(x.HasDefault) && x.FractionDigits == old(x.FractionDigits) && x.Length == old(x.Length) && x.OptionalInstance == old(x.OptionalInstance)
+//@                && x.Path == old(x.Path) && x.Pattern == old(x.Pattern) && x.POSIXPattern == old(x.POSIXPattern) && x.Range == old(x.Range) && x.Type == old(x.Type))
 //@   ensures[assume:loading-keeps-the-processed-trees] (forall m *Module :: modOK(m)) && (forall x *Entry :: ranked(x) && rootOK(x))
 //@            && (forall x *Entry :: allocated(x) ==> x.Parent == old(x.Parent) && x.Node == old(x.Node))
 //@   safe
@@ -830,6 +836,32 @@ package yang
 //@   loop 2
 //@     invariant scopeFind(d, iface(t), name) == nil && (forall j int :: 0 <= j && j < _k ==> dictFind(d, boxptr(root.Include[j].Module), name) == nil)
 
+// Typedef.resolve: the resolved type of a typedef is a fresh copy of the type
+// it is defined by, named after the typedef, with the typedef's own units and
+// default laid over it (the nearest definition wins) and everything else
+// inherited. A typedef that is already resolved, or a built-in, is left alone.
+// YangType.Equal compares through reflection (cmp); assumed to read only.
+//@ func (*YangType).Equal trusted
+//@   modifies nothing
+// The deferred closure of Typedef.resolve clears the in-progress mark only.
+//@ func (*Typedef).resolve$1 props C09
+//@   ensures t.resolving == false
+//@   modifies t.resolving
+//@ func (*Typedef).resolve props C09
+//@   requires t != nil && t.Type != nil
+//@   only ensures
+//@   ensures[resolved-once] old(t.Parent == nil || t.YangType != nil) ==> len(result) == 0 && t.YangType == old(t.YangType)
+//@   ensures[a-copy-named-after-the-typedef] old(t.Parent != nil && t.YangType == nil && !t.resolving) && len(result) == 0
+//@            ==> t.YangType != nil && fresh(t.YangType) && t.Type.YangType != nil && t.YangType != t.Type.YangType && t.YangType.Name == t.Name && t.YangType.Base == t.Type
+//@   ensures[own-units-and-default-win] old(t.Parent != nil && t.YangType == nil && !t.resolving) && len(result) == 0
+//@            ==> t.YangType.Units == (t.Units != nil ? t.Units.Name : t.Type.YangType.Units)
+//@             && t.YangType.Default == (t.Default != nil ? t.Default.Name : t.Type.YangType.Default)
+//@             && t.YangType.HasDefault == (t.Default != nil || t.Type.YangType.HasDefault)
+//@   ensures[the-rest-is-inherited] old(t.Parent != nil && t.YangType == nil && !t.resolving) && len(result) == 0 && t.Type.IdentityBase == nil
+//@            ==> t.YangType.Kind == t.Type.YangType.Kind && t.YangType.FractionDigits == t.Type.YangType.FractionDigits && t.YangType.Enum == t.Type.YangType.Enum && t.YangType.Bit == t.Type.YangType.Bit
+//@             && t.YangType.Pattern == t.Type.YangType.Pattern && t.YangType.Range == t.Type.YangType.Range && t.YangType.Length == t.Type.YangType.Length && t.YangType.Path == t.Type.YangType.Path
+//@             && t.YangType.Type == t.Type.YangType.Type && t.YangType.IdentityBase == t.Type.YangType.IdentityBase
+
 // ---------------------------------------------------------------------------
 // C11: identities.
 //
@@ -865,6 +897,12 @@ package yang
 //@   ensures  len(result1) == 0 ==> has(old(mod.Modules.typeDict).identities.dict, baseKey(mod, baseStr, old(ownPrefix(mod))))
 //@   ensures  len(result1) == 0 ==> result.Module == old(mod.Modules.typeDict).identities.dict[baseKey(mod, baseStr, old(ownPrefix(mod)))].Module && result.Identity == old(mod.Modules.typeDict).identities.dict[baseKey(mod, baseStr, old(ownPrefix(mod)))].Identity
 //@   ensures  fresh(result)
+//@   ensures[typedefs-and-types-untouched] (forall x *Typedef :: allocated(x) ==> x.Name == old(x.Name) && x.Parent == old(x.Parent) && x.Type == old(x.Type) && x.Units == old(x.Units) && x.Default == old(x.Default) && x.YangType == old(x.YangType) && x.resolving == old(x.resolving))
+//@            && (forall x *Type :: allocated(x) ==> x.Name == old(x.Name) && x.IdentityBase == old(x.IdentityBase) && x.YangType == old(x.YangType))
+//@            && (forall x *Value :: allocated(x) ==> x.Name == old(x.Name))
+//@            && (forall x *YangType :: allocated(x) ==> x.Name == old(x.Name) && x.Kind == old(x.Kind) && x.Base == old(x.Base) && x.IdentityBase == old(x.IdentityBase) && x.Root == old(x.Root) && x.Bit == old(x.Bit) && x.Enum == old(x.Enum)
+//@                && x.Units == old(x.Units) && x.Default == old(x.Default) && x.HasDefault == old(x.HasDefault) && x.FractionDigits == old(x.FractionDigits) && x.Length == old(x.Length) && x.OptionalInstance == old(x.OptionalInstance)
+//@                && x.Path == old(x.Path) && x.Pattern == old(x.Pattern) && x.POSIXPattern == old(x.POSIXPattern) && x.Range == old(x.Range) && x.Type == old(x.Type))
 //@   safe
 //
 // The order of a Values list: by identity name, and identities of equal name
